@@ -132,3 +132,85 @@ Definition mnem_name (mn : mnem) : string :=
   | XCE => "XCE"
   end.
 Local Close Scope string_scope.
+
+(* ------------------------------------------------------------------ comparison with the Go tables
+
+   The Go tables (emulator/cpu65c816/cpu.go `instructions`, emulator/cpualt/cpu.go createTable) are
+   regenerated on every run as   instr_table : list (opcode, name, mode, size, cycles, routine)
+   with the Go mode constants 1..26 (m_Absolute = 1 ... m_Stack_Relative_Indirect_Y = 26).
+
+   Adjudicated differences of presentation (data sheet consulted; none is a defect):
+   * $5C / $DC are called "jmp" in Go; WDC lists JMP al / JMP [a] with the alias JML.  Both accepted.
+   * PEA / PEI / PER use m_Immediate / m_DP / m_PC_Relative_Long in Go (said so in the Go source);
+     WDC files them under "stack" addressing with the operand syntax #imm16-or-abs / (dp) / rl.  The
+     operand bytes and what the routine does with them are the same; [go_mode] maps them accordingly.
+   * BRK: Go says m_Implied, size 1.  WDC: BRK is a 2-byte instruction (opcode + signature), the
+     pushed return address is PC+2.  Execution never reads the signature and op_brk pushes PC+2 and
+     loads PC itself, so the *execution* part accepts m_Implied for BRK; the *size* is used only by
+     the disassembler and is reported by [disasm_disagreements] (finding: size 1 instead of 2). *)
+
+Definition go_mode (mn : mnem) (md : mode) : Z :=
+  match mn, md with
+  | BRK, _ => 8
+  | PEI, _ => 9
+  | _, Abs => 1 | _, AbsX => 2 | _, AbsY => 3 | _, Acc => 4 | _, Imm8 => 5 | _, Imm16 => 5
+  | _, ImmM => 6 | _, ImmX => 7 | _, Imp => 8 | _, Dp => 9 | _, DpX => 10 | _, DpY => 11
+  | _, DpIndX => 12 | _, DpInd => 13 | _, DpIndL => 14 | _, DpIndY => 15 | _, DpIndLY => 16
+  | _, AbsIndX => 17 | _, AbsInd => 18 | _, AbsIndL => 19 | _, Long => 20 | _, LongX => 21
+  | _, BlockMove => 22 | _, Rel8 => 23 | _, Rel16 => 24 | _, Sr => 25 | _, SrIndY => 26
+  end.
+
+(* instructions whose routine loads PC itself (Go: stepPC = 0): for them the table's size does not
+   take part in execution *)
+Definition loads_pc (mn : mnem) : bool :=
+  match mn with BRK | COP | JMP | JML | JSR | JSL | RTI | RTS | RTL => true | _ => false end.
+
+(* the length Go's Step uses to advance PC: size, minus M for m_Immediate_flagM, minus X for
+   m_Immediate_flagX *)
+Definition go_length (gmode gsize : Z) (m8 x8 : bool) : Z :=
+  gsize - (if (gmode =? 6) && m8 then 1 else 0) - (if (gmode =? 7) && x8 then 1 else 0).
+
+Definition go_row := (Z * string * Z * Z * Z * string)%type.
+
+Definition row_exec_ok (r : go_row) : bool :=
+  let '(op, nm, gmode, gsize, cyc, pr) := r in
+  let '(mn, md) := decode op in
+  (gmode =? go_mode mn md) &&
+  (loads_pc mn ||
+   forallb (fun mx : bool * bool => go_length gmode gsize (fst mx) (snd mx) =? length md (fst mx) (snd mx))
+           [(false,false); (false,true); (true,false); (true,true)]).
+
+Fixpoint lower (s : string) : string :=
+  match s with
+  | EmptyString => EmptyString
+  | String c r =>
+      let n := Ascii.nat_of_ascii c in
+      String (if (Nat.leb 65 n && Nat.leb n 90)%bool then Ascii.ascii_of_nat (n + 32) else c) (lower r)
+  end.
+
+Definition name_ok (mn : mnem) (goname : string) : bool :=
+  String.eqb (lower goname) (lower (mnem_name mn)) ||
+  match mn with JML => String.eqb (lower goname) "jmp" | _ => false end.
+
+Definition row_disasm_ok (r : go_row) : bool :=
+  let '(op, nm, gmode, gsize, cyc, pr) := r in
+  let '(mn, md) := decode op in
+  name_ok mn nm && (gsize =? length md false false).
+
+Definition rows_complete (t : list go_row) : bool :=
+  (Z.of_nat (List.length t) =? 256) &&
+  forallb (fun p : Z * go_row => let '(i, (op, _, _, _, _, _)) := p in op =? i)
+          (combine (map Z.of_nat (seq 0 256)) t).
+
+(* opcodes whose execution-driving entries (mode, operand length) disagree with the data sheet *)
+Definition exec_disagreements (t : list go_row) : list Z :=
+  map (fun r : go_row => let '(op, _, _, _, _, _) := r in op) (filter (fun r => negb (row_exec_ok r)) t).
+(* opcodes whose disassembler-only entries (name, nominal size) disagree *)
+Definition disasm_disagreements (t : list go_row) : list Z :=
+  map (fun r : go_row => let '(op, _, _, _, _, _) := r in op) (filter (fun r => negb (row_disasm_ok r)) t).
+
+Definition table_agrees_exec (t : list go_row) : bool :=
+  rows_complete t && match exec_disagreements t with [] => true | _ => false end.
+Definition table_agrees_disasm (t : list go_row) : bool :=
+  rows_complete t && match disasm_disagreements t with [] => true | _ => false end.
+Definition table_agrees (t : list go_row) : bool := table_agrees_exec t && table_agrees_disasm t.
